@@ -160,7 +160,9 @@ fn main() {
         verif::start_recording();
         verif::emit("Config", format_args!("\"deny_rules\":{},\"dual\":{},\"deny_ips\":[\"127.0.0.70\"],\"deny_below\":{},\"canon\":{}", rules_on, dual, DENY_BELOW,
             if dual { "{\"::ffff:127.0.0.1\":\"127.0.0.1\",\"::ffff:127.0.0.70\":\"127.0.0.70\"}" } else { "{\"127.0.0.1\":\"127.0.0.1\",\"127.0.0.70\":\"127.0.0.70\"}" }));
-        let kinds = vec!["tunnel-h3", "tunnel-h3", "tunnel-h3-refused", "tunnel-h3-noauth", "get-h3", "ping-h3", "denied-source", "silent", "garbage"];
+        // (a server name the endpoint has no host for falls back to the main host on QUIC: whether it is served is left
+        // open, but a session that is opened is an HTTP/3 session like any other)
+        let kinds = vec!["tunnel-h3", "tunnel-h3", "tunnel-h3-refused", "tunnel-h3-noauth", "get-h3", "ping-h3", "denied-source", "silent", "garbage", "tunnel-h3-unknown-sni"];
         // every kind of visit meets every ClientHello size class once in hello_fillers().len() rounds; the multi-packet
         // hellos alternate between leaving in order and tail first
         let fillers = hello_fillers();
@@ -184,6 +186,7 @@ fn main() {
             let (view, must_respond) = match kind {
                 "tunnel-h3" => (visit(ep.addr, me, "localhost", Some(("CONNECT", &target, true)), quiet, shape), true),
                 "tunnel-h3-refused" => (visit(ep.addr, me, "localhost", Some(("CONNECT", "127.0.0.1:1", true)), quiet, shape), true),
+                "tunnel-h3-unknown-sni" => (visit(ep.addr, me, "cdn.example.org", Some(("CONNECT", &target, true)), quiet, shape), false),
                 "tunnel-h3-noauth" => (visit(ep.addr, me, "localhost", Some(("CONNECT", &target, false)), quiet, shape), true),
                 "get-h3" => (visit(ep.addr, me, "localhost", Some(("GET", "http://_check/", true)), quiet, shape), true),
                 "ping-h3" => (visit(ep.addr, me, "ping.localhost", Some(("GET", "https://ping.localhost/", false)), quiet, shape), true),
